@@ -39,3 +39,11 @@ Lemma header_values_from_caller_impl_l action opts k v :
   (exists k', In (k', v) opts /\ str_eqb k (lower k') = true) \/
   (k = l_content_type /\ v = v_text_xml_utf8) \/ (k = l_soapaction /\ v = action).
 Proof. rewrite impl_is_std_l. apply header_values_from_caller_l. Qed.
+
+Lemma credentials_recoverable_refuted_impl_l :
+  exists u p, scalars u = true /\ scalars p = true /\
+              server_recovers (model_authorization impl_params u p) <> Some (u, p).
+Proof.
+  destruct credentials_recoverable_refuted_l as [u [p H]]. exists u, p.
+  rewrite impl_is_std_l, std_authorization. exact H.
+Qed.
